@@ -277,41 +277,60 @@ def run(ck: Check):
 
 
 def other_subscriptions(ck: Check) -> int:
+    """logs / service calls / home-assistant states (with and without the one-shot handler) / advertisements / raw
+    advertisements / connections-free: random streams with unsubscribe points, against Subs.oRun and the text's rule"""
+    rng, thorough = ck.rng, ck.tier == "thorough"
     n = 0
-    client, conn, tr, loop = live.make_client()
-    got = {"log": [], "svc": [], "ha": [], "har": [], "adv": [], "raw": [], "free": []}
-    client.subscribe_logs(lambda m: got["log"].append(bytes(m.message)))
-    client.subscribe_service_calls(lambda c: got["svc"].append(c.service))
-    client.subscribe_home_assistant_states(lambda e, a: got["ha"].append((e, a)), lambda e, a: got["har"].append((e, a)))
-    un_adv = client.subscribe_bluetooth_le_advertisements(lambda a: got["adv"].append(a.address))
-    un_raw = client.subscribe_bluetooth_le_raw_advertisements(lambda r: got["raw"].append(len(r.advertisements)))
-    un_free = client.subscribe_bluetooth_connections_free(lambda f, l: got["free"].append((f, l)))
-    want = {k: [] for k in got}
-    for i in range(12):
-        live.feed_message(conn, pb.SubscribeLogsResponse(message=f"l{i}".encode())); want["log"].append(f"l{i}".encode())
-        live.feed_message(conn, pb.HomeassistantServiceResponse(service=f"s{i}")); want["svc"].append(f"s{i}")
-        once = i % 3 == 0
-        live.feed_message(conn, pb.SubscribeHomeAssistantStateResponse(entity_id=f"e{i}", attribute="a", once=once))
-        (want["har"] if once else want["ha"]).append((f"e{i}", "a"))
-        if i == 6:
-            un_adv(); un_raw(); un_free()
-        live.feed_message(conn, pb.BluetoothLEAdvertisementResponse(address=100 + i))
-        live.feed_message(conn, pb.BluetoothLERawAdvertisementsResponse(advertisements=[pb.BluetoothLERawAdvertisement(address=i)]))
-        live.feed_message(conn, pb.BluetoothConnectionsFreeResponse(free=i, limit=9))
-        if i < 6:
-            want["adv"].append(100 + i); want["raw"].append(1); want["free"].append((i, 9))
-        n += 6
-    # the same stream for a subscriber that did not give the optional one-shot-request handler: every message, `once` or not,
-    # is one call of the subscription handler
-    client2, conn2, _tr2, _loop2 = live.make_client()
-    got["ha_only"], want["ha_only"] = [], []
-    client2.subscribe_home_assistant_states(lambda e, a: got["ha_only"].append((e, a)))
-    for i in range(9):
-        live.feed_message(conn2, pb.SubscribeHomeAssistantStateResponse(entity_id=f"e{i}", attribute="" if i % 2 else "a", once=i % 3 == 0))
-        want["ha_only"].append((f"e{i}", "" if i % 2 else "a"))
-        n += 1
-    for k in got:
-        if got[k] != want[k]:
-            ck.violation(f"c17:subscription:{k}", f"subscription {k}: callbacks {got[k]} but the device sent {want[k]} "
-                         f"(unsubscribed after the 6th round for adv/raw/free)", {"subscription": k})
+    lines, impl, metas = [], [], []
+    KINDS = ["log", "svc", "ha", "adv", "raw", "free"]
+    for case in range(120 if thorough else 30):
+        has_req = case % 2 == 0
+        client, conn, tr, loop = live.make_client()
+        got = []
+        client.subscribe_logs(lambda m: got.append(f"log:{int(bytes(m.message)[1:])}"))
+        client.subscribe_service_calls(lambda c: got.append(f"svc:{int(c.service[1:])}"))
+        if has_req:
+            client.subscribe_home_assistant_states(lambda e, a: got.append(f"ha:{int(e[1:])}"), lambda e, a: got.append(f"hareq:{int(e[1:])}"))
+        else:
+            client.subscribe_home_assistant_states(lambda e, a: got.append(f"ha:{int(e[1:])}"))
+        un = {"adv": client.subscribe_bluetooth_le_advertisements(lambda a: got.append(f"adv:{a.address}")),
+              "raw": client.subscribe_bluetooth_le_raw_advertisements(lambda r: got.append(f"raw:{r.advertisements[0].address}")),
+              "free": client.subscribe_bluetooth_connections_free(lambda f, l: got.append(f"free:{f}"))}
+        evs, want, active = [], [], set(KINDS)
+        for i in range(rng.randrange(4, 16)):
+            if un and rng.random() < 0.15:
+                k = rng.choice(sorted(un))
+                un.pop(k)()
+                active.discard(k)
+                evs.append(f"u:{k}")
+                continue
+            k = rng.choice(KINDS)
+            once = rng.random() < 0.4
+            msg = {"log": lambda: pb.SubscribeLogsResponse(message=f"l{i}".encode()),
+                   "svc": lambda: pb.HomeassistantServiceResponse(service=f"s{i}"),
+                   "ha": lambda: pb.SubscribeHomeAssistantStateResponse(entity_id=f"e{i}", attribute="" if i % 2 else "a", once=once),
+                   "adv": lambda: pb.BluetoothLEAdvertisementResponse(address=i),
+                   "raw": lambda: pb.BluetoothLERawAdvertisementsResponse(advertisements=[pb.BluetoothLERawAdvertisement(address=i)]),
+                   "free": lambda: pb.BluetoothConnectionsFreeResponse(free=i, limit=9)}[k]()
+            live.feed_message(conn, msg)
+            evs.append(f"m:{k}:{i}:{int(once)}")
+            # the rule, from the property text: one call of the matching handler per message of a subscribed kind
+            if k in active:
+                want.append(f"hareq:{i}" if (k == "ha" and has_req and once) else f"{k}:{i}")
+            n += 1
+        if got != want:
+            ck.violation("c17:subscription:" + next((a.split(":")[0] for a, b in zip(got + ["?"], want + ["?"]) if a != b), "?"),
+                         f"subscriptions (one-shot handler given: {has_req}), events {evs}: callbacks {got}, the device's messages "
+                         f"prescribe {want}", {"events": evs, "has_request_handler": has_req})
+        lines.append(f"sb.other {int(has_req)} {','.join(KINDS)} " + " ".join(evs))
+        impl.append(" ".join(got))
+        metas.append(evs)
+    from common import run_driver
+    out = run_driver(lines)
+    if out is None:
+        ck.disagreement("driver unavailable", {})
+    else:
+        for l, m, o in zip(lines, out, impl):
+            if m != o:
+                ck.disagreement("subscriptions: model != implementation", {"op": l[:300], "model": m, "impl": o})
     return n
